@@ -1,5 +1,5 @@
 (* C16 Queries are read-only and report the book and configuration faithfully. *)
-From ATS Require Import Prelude Dec Uuid Semver Types Contract Tactics InstProofs.
+From ATS Require Import Prelude Dec Uuid Semver Types Contract Tactics InstProofs Spec Inv InvAsk InstProofs AskProofs BidFacts InvBid InvStep ExitProofs.
 
 (* Read-only: `query : state -> qmsg -> res qres` returns no state at all; as a transition it is the identity.
    (On the implementation side the correspondence run compares the complete raw storage around every query.) *)
@@ -35,3 +35,32 @@ Theorem C16_version_info : forall st,
   query st GetVersionInfo = match st_ver st with Some (d, v) => Ok (QVer d v) | None => Refused 64 end.
 Proof. exact query_ver. Qed.
 Print Assumptions C16_version_info.
+
+(* "what a cancel would return": in every reachable state the order a query reports is the order its owner's cancel acts
+   on -- the cancel is accepted, removes exactly that order and pays out the amounts the query showed (an ask: its
+   remaining size, plus the approver's recorded amount; a bid: its unspent quote and the fee still held) *)
+Theorem C16_ask_query_is_what_cancel_returns : forall e' e m st0 r0 evs id a,
+  env_version_ok e -> instantiate e empty_state m = Ok (st0, r0) ->
+  query (run st0 evs) (GetAsk id) = Ok (QAsk a) ->
+  execute FX e' (run st0 evs) (a_owner a) [] (CancelAsk id) =
+  Ok (set_asks (run st0 evs) (remove id (st_asks (run st0 evs))),
+      mkresp (ask_exit_msgs e' a (a_size a) (a_size a)) [("action", "cancel_ask"); ("id", id)]).
+Proof.
+  intros e' e m st0 r0 evs id a He Hi Hq. apply query_get_ask in Hq as [_ Hl].
+  pose proof (InvA_reachable e m st0 r0 evs He Hi) as HA. destruct (inv_cfg _ HA) as (c & Hc & _).
+  eapply cancel_ask_live; eauto. eapply inv_asks; eauto.
+Qed.
+Print Assumptions C16_ask_query_is_what_cancel_returns.
+
+Theorem C16_bid_query_is_what_cancel_returns : forall e' e m st0 r0 evs id b,
+  env_version_ok e -> instantiate e empty_state m = Ok (st0, r0) -> clean_run st0 evs ->
+  query (run st0 evs) (GetBid id) = Ok (QBid b) ->
+  execute FX e' (run st0 evs) (b_owner b) [] (CancelBid id) =
+  Ok (set_bids (run st0 evs) (remove id (st_bids (run st0 evs))),
+      mkresp (bid_exit_all e' b) (reverse_attrs "cancel_bid" id (unfilled b) false)).
+Proof.
+  intros e' e m st0 r0 evs id b He Hi Hcl Hq. apply query_get_bid in Hq as [_ Hl].
+  destruct (Inv_reachable e m st0 r0 evs He Hi Hcl) as [HA HB]. destruct (inv_cfg _ HA) as (c & Hc & _).
+  eapply cancel_bid_live; eauto. destruct (inv_bids _ HB c id _ Hc Hl) as (b0 & Hb0 & Hok). injection Hb0 as <-. exact Hok.
+Qed.
+Print Assumptions C16_bid_query_is_what_cancel_returns.
